@@ -104,6 +104,7 @@ def cases(draw):
         "shard_enc": draw(st.sampled_from(["raw", "gzip"])),
         "content": draw(st.sampled_from(["position", "position", "limits"])),
         "seed": draw(st.integers(0, 2 ** 31)),
+        "big_endian": draw(st.integers(0, 3)) == 0,
     }
 
 
@@ -240,7 +241,7 @@ def check_case(ctx, case):
         path = os.path.join(d, "in.nii" + (".gz" if case["gz"] else ""))
         slope, inter = case["scaling"] or (None, None)
         nifti.write_nifti(path, raw, np.diag([1.0, 1.0, 1.0, 1.0]), slope,
-                          inter)
+                          inter, big_endian=case.get("big_endian", False))
         _, ok = nifti.load_checked(path, raw, slope, inter)
         if not ok:
             ctx.count("precondition_failed")
@@ -341,7 +342,9 @@ def run(ctx, n):
             "enc." + case["encoding"], "acc." + case["acc"],
             "mmap" if case["mmap"] else "full", "scaling." + sk,
             "minmax" if case["minmax"] else "nominmax",
-            "ignore" if case["ignore_scaling"] else "apply"])
+            "ignore" if case["ignore_scaling"] else "apply",
+            "big_endian_file" if case.get("big_endian") and
+            case["layout"] != "rgb" else "little_endian_file"])
     ctx.run_hypothesis(cases(), check, n)
 
 
